@@ -140,5 +140,7 @@ Qed.
 Corollary outputs_refine_now d r t ops h : abs d h r = Some t -> no_derive_edit ops = true ->
   snd (mrun d r (h, book0) ops) = map (mstepS d t) ops.
 Proof. intros H G. apply (outputs_refine_fixed fixed_shared_edge_dicts d r t ops h H). now right. Qed.
+Corollary outputs_refine_head d r t ops h : abs d h r = Some t -> snd (mrun d r (h, book0) ops) = map (mstepS d t) ops.
+Proof. intros H. apply (outputs_refine_fixed fixed_shared_edge_dicts d r t ops h H). now left. Qed.
 Corollary outputs_refine_all d r t ops h : abs d h r = Some t -> snd (mrun_gen true true d r (h, book0) ops) = map (mstepS d t) ops.
 Proof. intros H. apply (outputs_refine_fixed true d r t ops h H). now left. Qed.
